@@ -11,7 +11,7 @@ CHECKS = {
 }
 CHECKS['C16'] = dict(
    technique='Coq proof (neither parser model can panic: explicit usize-overflow and capacity-overflow sites, exponent cap re-read from the source; everything either parser accepts is a rendering of a well-formed source of the documented grammar and is read with exactly the written value) + exhaustive-string differential correspondence + independent grammar / conventional-reading oracle',
-   text='7 theorems for all strings, all arithmetic instances and all Unicode classifications: c16_simple_total, c16_inter_total, c16_simple_power_cap; c16_simple_accepts_only_grammar and c16_inter_accepts_only_grammar (acceptance => the whitespace-stripped text is a rendering of the documented grammar; for the multivariate parser the result is term for term the canonical form of that source), c16_simple_fidelity (R: the accepted polynomial takes at every point the value of the text; the empty text is 0); model tied to the code by exhaustive agreement on all strings over the 15-symbol alphabet up to length 4 (thorough 5) plus mutated grammatical text with classified Unicode and overflow numerals',
+   text='6 theorems for all strings, all arithmetic instances and all Unicode classifications: c16_simple_total, c16_inter_total, c16_simple_power_cap; c16_simple_accepts_only_grammar and c16_inter_accepts_only_grammar (acceptance => the whitespace-stripped text is a rendering of the documented grammar; for the multivariate parser the result is term for term the canonical form of that source), c16_simple_fidelity (R: the accepted polynomial takes at every point the value of the text; the empty text is 0); model tied to the code by exhaustive agreement on all strings over the 15-symbol alphabet up to length 4 (thorough 5) plus mutated grammatical text with classified Unicode and overflow numerals',
    note='Coq kernel; no axioms for the discrete theorems, Reals axioms for c16_simple_fidelity; extraction + OCaml driver; Rust harness; Python oracle (regex recogniser of the documented grammars + conventional arithmetic reader); Unicode class table measured against Rust on every run',
    ref='DESIGN.md §5 C16')
 
